@@ -482,6 +482,23 @@ CONTRACTS.append(_placement_part(
      ("molecule.add_or_replace_interaction(inter_type, *interaction, link.citations)",
       "molecule.add_or_replace_interaction(inter_type, *interaction, link.citations)\n                        break")]))
 
+_P_REM, _P_ADD = CONTRACTS[-2], CONTRACTS[-1]
+# ... and the two composed (block contracts): within one placement all removals are dealt with before the first addition, each list
+# exactly once - the additions start from an untouched record because the removals' frame does not include it
+placement_both = FunctionContract(
+    F, 'DoLinks.run_molecule', 'C05', short='DoLinks.run_molecule[one placement: removals, then interactions]', setup=setup_place, spec_defs=SPEC_PLACE,
+    spec_env=dict(LInter=LInter),
+    region=dict(within=["for link in links:", "for match in matches:"], start="for inter_type, interactions in link.removed_interactions.items():",
+                end="for loglevel, entries in link.log_entries.items():"),
+    blocks=[BlockSpec.of(_P_REM), BlockSpec.of(_P_ADD)],
+    locals=dict(g_off=TSeq(TInt), g_off_rem=TSeq(TInt)),
+    ghost_at={'after:block:%s' % _P_REM.short: "g_off_rem = list(g_off)"},
+    requires=["len(old(EV_REM)) == 0 and len(old(EV_ADD)) == 0"],
+    ensures=_place_inv('REM', 'EV_REM', 'g_off_rem', 'len(REM)') + _place_inv('ADD', 'EV_ADD', 'g_off', 'len(ADD)'),
+    modifies=['EV_REM', 'EV_ADD'],
+)
+CONTRACTS.append(placement_both)
+
 
 # ------------------------------------------------------------------ DoLinks.run_molecule: what a placement does to the atoms
 LNode2, MAtom2, RKey2, RVal2 = TKey('LNode2'), TKey('MAtom2'), TKey('RKey2'), TKey('RVal2')
